@@ -118,6 +118,9 @@ class Decode(Harness):
                         continue
                     out.append(dict(recs=recs, n_ref=n_ref, chunk=ch, interval=False))
                 out.append(dict(recs=recs, n_ref=n_ref, chunk=None, interval=True))
+        # history: the reference intervals of the table are asked for (alignment_to_interval) before its fields are read
+        out += [dict(recs=sets[2], n_ref=1, chunk=None, interval=False, interval_first=True),
+                dict(recs=sets[5], n_ref=2, chunk=None, interval=False, interval_first=True)]
         return out
 
     REFS = [("chr1", 1000), ("chrX", 500)]
@@ -156,6 +159,9 @@ class Decode(Harness):
                                      name=ctx.lst(d.name[j].raw()), score=ctx.lst(d.score[j]),
                                      strand=st if isinstance(st, list) else [st]))
                 continue
+            if skel.get("interval_first"):
+                from bionumpy.alignments import alignment_to_interval
+                alignment_to_interval(d)
             for j in range(n):
                 rows.append(dict(chrom=d.chromosome[j].to_string(), name=ctx.lst(d.name[j].raw()), flag=ctx.lst(d.flag[j]),
                                  pos=ctx.lst(d.position[j]), mapq=ctx.lst(d.mapq[j]), op=ctx.lst(d.cigar_op[j].raw()),
